@@ -51,9 +51,11 @@ C05ok(c) == /\ (c.term = "ic" => c.lkind # "statio" /\ c.ns = 2 /\ c.L = 1 /\ c.
             /\ (c.wform = "vector" => c.nout >= 2 /\ (c.term = "obs" => c.sl = "all"))
 PKeys == 1..3
 C12 == UNION {[kind : {"loss_struct"}, family : {"C12"}, lkind : {lk}, batched : SUBSET PKeys, pshape : {"scalar", "one"},
-               ot : BOOLEAN, hetero : {"none", "k1", "k3map", "k1k3", "k3k1"}, obsk : BOOLEAN, b : {2, 4}]     \* k1k3 / k3k1: TWO heterogeneous keys, one map reading the RAW value of the other
+               ot : BOOLEAN, hetero : {"none", "k1", "k3map", "k1k3", "k3k1"}, obsk : BOOLEAN, b : {2, 4}, pint : BOOLEAN]     \* k1k3 / k3k1: TWO heterogeneous keys, one map reading the RAW value of the other
               : lk \in LKinds}
+\* pint: the batched tables are integer-typed arrays (only with a batch, plain networks, no heterogeneity: the values are the same integers)
 C12ok(c) == (c.hetero # "none" => c.batched \subseteq {1, 2} /\ ~c.obsk) /\ (c.obsk => 3 \notin c.batched)
+            /\ (c.pint => c.batched # {} /\ c.hetero = "none" /\ ~c.obsk /\ c.pshape = "scalar")
 C13 == [kind : {"loss_struct"}, family : {"C13"}, lkind : LKinds, neq : 1..3, nunk : 1..3, naming : {"same", "different", "overlap"},
         wform : {"scalar", "dict", "nodyn", "nocons"}, icpat : {"none", "first", "all"}, obspat : {"none", "first", "all"}, bnd : BOOLEAN, pbatch : BOOLEAN,
         shared : BOOLEAN,
